@@ -2814,3 +2814,7 @@ for _p in _ALL:
                          note="the zero-length error names the start time and the annotator (reads of the arguments only)"))
 VARIANTS.append(dict(prop="C04", id="r17/broken-positions-sorted-in-place", kind="M", rule="R-C04-5", patch=_os.path.join(_HP, "broken-positions-sorted-in-place.diff"),
                      note="the numerical positions sorted in place before they are handed over, the labels left in the order given"))
+VARIANTS.append(dict(prop="C19", id="sweep/sweep-category-weights-count-never-stepped", kind="M", rule="R-SUP", patch=_os.path.join(_HP, "sweep-category-weights-count-never-stepped.diff"),
+                     note="category_weights never steps the count of a label it has already seen"))
+VARIANTS.append(dict(prop="C19", id="sweep/sweep-category-weights-not-normalised", kind="M", rule="", expect_code=2, patch=_os.path.join(_HP, "sweep-category-weights-not-normalised.diff"),
+                     note="category_weights returns raw counts (the division by the number of units deleted): the value shape is not found, refused"))
